@@ -447,6 +447,13 @@ private:
                                 .count())
       : std::numeric_limits<uint64_t>::max();
 
+    // Load any thread context that was added until now. A thread that registered and logged between
+    // the last reload and the timestamp above can hold a message older than ts_now, skipping its
+    // queue in this pass would process newer messages (or a flush request) of other threads first.
+    // A thread that registers after this point pushes its first message after the clock was read
+    // above, its timestamp is newer than ts_now as long as it was pushed within the grace period
+    _update_active_thread_contexts_cache();
+
     size_t cached_transit_events_count{0};
 
     for (ThreadContext* thread_context : _active_thread_contexts_cache)
